@@ -56,6 +56,12 @@ func (h *EventHandler) OnAdd(obj any, _ bool) {
 func (h *EventHandler) OnDelete(obj any) {
 	endpoints, ok := obj.(*v1.Endpoints)
 	if !ok {
+		// a deletion missed by the watch is delivered as a tombstone with the last known state
+		if tombstone, isTombstone := obj.(cache.DeletedFinalStateUnknown); isTombstone {
+			endpoints, ok = tombstone.Obj.(*v1.Endpoints)
+		}
+	}
+	if !ok {
 		logx.Errorf("%v is not an object with type *v1.Endpoints", obj)
 		return
 	}
